@@ -124,6 +124,17 @@ type ContractFile struct {
 	Axioms    []Clause
 	Immutable []string // "Tree.separator" fields never written after construction
 	Sites     []SiteDecl
+	Monitors  []MonitorInv
+}
+
+// MonitorInv: invariant of the state guarded by a mutex field; assumed after
+// Lock/RLock of that mutex, asserted before Unlock/RUnlock. `self` names the
+// object that contains the mutex.
+type MonitorInv struct {
+	Mutex string // "Future.mutex"
+	Label string
+	Text  string
+	E     Expr
 }
 
 var clauseKw = map[string]bool{"requires": true, "ensures": true, "modifies": true, "assigns": true,
@@ -131,7 +142,7 @@ var clauseKw = map[string]bool{"requires": true, "ensures": true, "modifies": tr
 	"use": true, "by": true}
 var itemKw = map[string]bool{"spec": true, "lemma": true, "func": true, "interface": true, "trusted": true,
 	"guarded_by": true, "ghost": true, "writers": true, "global": true, "axiom": true, "immutable": true, "uninterp": true,
-	"functype": true, "sends": true, "selectsends": true, "callsites": true, "invokes": true, "closureuse": true}
+	"functype": true, "monitor": true, "sends": true, "selectsends": true, "callsites": true, "invokes": true, "closureuse": true}
 
 var labelRe = regexp.MustCompile(`^\[([A-Za-z0-9_\-\.]+)\]\s*`)
 
@@ -430,6 +441,19 @@ func parseContractFile(path, pkgPath string, requirePrefix bool) (*ContractFile,
 				}
 			}
 			cf.Sites = append(cf.Sites, sd)
+		case "monitor":
+			k := strings.IndexAny(rest, " \t")
+			if k < 0 {
+				return nil, fail("bad monitor declaration")
+			}
+			c, err := parseClauseExpr("monitor", strings.TrimSpace(rest[k+1:]), ll.line, path)
+			if err != nil {
+				return nil, err
+			}
+			if c.Label == "" {
+				c.Label = fmt.Sprintf("inv%d", len(cf.Monitors)+1)
+			}
+			cf.Monitors = append(cf.Monitors, MonitorInv{Mutex: rest[:k], Label: c.Label, Text: c.Text, E: c.E})
 		case "functype":
 			sig := rest
 			name := ""
